@@ -188,6 +188,20 @@ static void lowlevel(World &w, int reps) {
           VH_OP("tGswExternMulToTLwe:%s", w.cfg.c_str()); tGswExternMulToTLwe(acc2, A, tg); after("tGswExternMulToTLwe");
           VH_OP("tGswFFTExternMulToTLwe:%s", w.cfg.c_str()); tGswFFTExternMulToTLwe(acc2, AF, tg); after("tGswFFTExternMulToTLwe");
           if (hash_tgsw(A, tg) != hA || hash_tgswfft(AF, tg) != hAF) out.viol("untouched:tgsw-input-modified:extern-products", J().s("config", w.cfg)); }
+        // the same with operands of special shapes: a noiseless trivial sample (zero mask), the all-zero sample, a sample with one
+        // non-zero coefficient, one with a single zero polynomial among random ones
+        for (int shape = 0; shape < 4; shape++) {
+            for (int i = 0; i <= k; i++) for (int j = 0; j < N; j++) acc->a[i].coefsT[j] = shape == 0 ? (i == k ? rng.i32() : 0) : shape == 1 ? 0 : shape == 2 ? 0 : (i == 0 ? 0 : rng.i32());
+            if (shape == 2) acc->a[(int) rng.below(k + 1)].coefsT[(int) rng.below(N)] = rng.i32() | 1;
+            const TGswSample *A = &w.ck->bk->bk[(rep + shape) % n]; const TGswSampleFFT *AF = &w.ck->bkFFT->bkFFT[(rep + shape) % n];
+            uint64_t hc = hash_tlwe(acc, N, k); static const char *sn[] = {"noiseless-trivial", "all-zero", "one-non-zero-coefficient", "one-zero-polynomial"};
+            VH_OP("tGswExternProduct(%s operand):%s", sn[shape], w.cfg.c_str()); tGswExternProduct(acc2, A, acc, tg);
+            tGswTLweDecompH(dec, acc, tg); for (int i = 0; i <= k; i++) tGswTorus32PolynomialDecompH(dec, &acc->a[i], tg);
+            out.evaluations++;
+            if (hash_tlwe(acc, N, k) != hc) out.viol("untouched:tlwe-input-modified:tGswExternProduct/decomposition", J().s("config", w.cfg).s("operand", sn[shape]));
+            (void) AF;
+        }
+        for (int i = 0; i <= k; i++) for (int j = 0; j < N; j++) acc->a[i].coefsT[j] = rng.i32();
         // decompositions: the decomposed sample is an input (the implementation shifts it temporarily and must restore it)
         { uint64_t hc = hash_tlwe(acc, N, k); VH_OP("tGswTLweDecompH:%s", w.cfg.c_str()); tGswTLweDecompH(dec, acc, tg); after("tGswTLweDecompH");
           tGswTorus32PolynomialDecompH(dec, acc->b, tg); after("tGswTorus32PolynomialDecompH");
